@@ -44,7 +44,7 @@ def run_histories(spec, acc, configs, prof, monitors, n_hist, jobs,
                     m(world, rec, acc, ctx)
             g = Gen(world, random.Random(hseed), prof, on_job)
             if openers:
-                op = openers[(k // max(1, len(configs))) % len(openers)]
+                op = openers[master.randrange(len(openers))]
                 if op:
                     op(g)
             g.walk(jobs)
